@@ -78,12 +78,37 @@ Definition report_code (rate : Z) (ul : bool) (h : list sop) (now : Z) (r : srep
   else if negb (rtp_okb rate (sp_ref (sp_accepted ul [] h)) now rtp) then 4%nat
   else 0%nat.
 
+(* Deepening round: reports taken BEFORE the reference instant (the clock stepped
+   backwards between the send of the reference packet and the report).  The
+   property text "advanced by the elapsed wall time times the clock rate, modulo
+   2^32" with a negative elapsed time: RTP = reference timestamp MINUS
+   |elapsed| * rate / 1e9 (mod 2^32), same tolerance as above (1 tick + 2^-50
+   relative).  Checked for |elapsed| <= MaxDur and a product below 2^62.
+   Separate failure code 6 so that [report_code] and its lemmas stay as they were. *)
+Definition rtp_neg_okb (rate : Z) (ref : option (Z * Z)) (now rtp : Z) : bool :=
+  match ref with
+  | None => true
+  | Some (ts, t) =>
+      let b := t - now in
+      let back := b * rate / 1000000000 in
+      if (0 <? b) && (b <=? MaxDur) && (back <? 4611686018427387904)
+      then Z.abs (s32 (rtp - ts + back)) <=? 1 + back / 1125899906842624
+      else true
+  end.
+
+Definition report_code2 (rate : Z) (ul : bool) (h : list sop) (now : Z) (r : srep) : nat :=
+  match report_code rate ul h now r with
+  | O => let '(_, rtp, _, _) := r in
+         if negb (rtp_neg_okb rate (sp_ref (sp_accepted ul [] h)) now rtp) then 6%nat else 0%nat
+  | c => c
+  end.
+
 (* walk the ops; [pre] is the history so far in reverse *)
 Fixpoint core_code (rate : Z) (ul : bool) (pre : list sop) (ops : list cop) : nat :=
   match ops with
   | [] => 0%nat
   | CRep now ntp rtp pc oc :: tl =>
-      match report_code rate ul (rev pre) now (ntp, rtp, pc, oc) with
+      match report_code2 rate ul (rev pre) now (ntp, rtp, pc, oc) with
       | O => core_code rate ul pre tl
       | c => c
       end
@@ -166,7 +191,7 @@ Fixpoint tick_code (ul : bool) (pre : list caop) (now : Z) (reps : list (Z * sre
       match proj_hist ssrc pre [] with
       | None => 5%nat
       | Some (rate, h) =>
-          match report_code rate ul h now r with
+          match report_code2 rate ul h now r with
           | O => tick_code ul pre now tl
           | c => c
           end
@@ -249,3 +274,49 @@ Section OracleSound.
       rewrite N. reflexivity.
   Qed.
 End OracleSound.
+
+(* ---- deepening round: the extended oracle (code 6, negative elapsed time) ---- *)
+Lemma report_code2_zero rate ul h now r :
+  report_code2 rate ul h now r = 0%nat -> report_code rate ul h now r = 0%nat.
+Proof. unfold report_code2. destruct (report_code rate ul h now r); [reflexivity|discriminate]. Qed.
+
+Section OracleSound2.
+  Variable ek : Z -> Z -> Z.
+  Variable k1 : Z -> Z * Z.
+  Variable rate : Z.
+  Variable ul : bool.
+  Hypothesis rate_nonneg : 0 <= rate.
+  Hypothesis ek_accurate : forall d, 0 <= d <= MaxDur -> d * rate / 1000000000 < 4611686018427387904 ->
+    exists e, Z.abs e <= 1 + (d * rate / 1000000000) / 1125899906842624 /\
+              ek d rate = (d * rate / 1000000000 + e) mod 4294967296.
+  Hypothesis ek_accurate_neg : forall d, 0 < d <= MaxDur -> d * rate / 1000000000 < 4611686018427387904 ->
+    exists e, Z.abs e <= 1 + (d * rate / 1000000000) / 1125899906842624 /\
+              ek (- d) rate = (- (d * rate / 1000000000) + e) mod 4294967296.
+  Hypothesis k1_accurate : forall now, 0 <= now < 2085978496 * 1000000000 ->
+    Z.abs (to_ntp k1 now - ntp_exact now) <= 8192.
+
+  Lemma model_passes_oracle2 h now :
+    report_code2 rate ul h now (sp_report ek k1 rate ul h now) = 0%nat.
+  Proof.
+    unfold report_code2.
+    rewrite (model_passes_oracle ek k1 rate ul rate_nonneg ek_accurate k1_accurate h now).
+    unfold sp_report.
+    destruct (sp_ref (sp_accepted ul [] h)) as [[ts t]|] eqn:E; [|reflexivity].
+    assert (R : rtp_neg_okb rate (Some (ts, t)) now ((ts + ek (dur_sub now t) rate mod 4294967296) mod 4294967296) = true).
+    { unfold rtp_neg_okb. destruct ((0 <? t - now) && _ && _) eqn:B; auto.
+      assert (Hd : dur_sub now t = - (t - now)).
+      { unfold dur_sub, MinDur, MaxDur in *. cbv zeta.
+        destruct (now - t <? _) eqn:?; [lia|]. destruct (_ <? now - t) eqn:?; lia. }
+      rewrite Hd.
+      destruct (ek_accurate_neg (t - now)) as (e & He & Hk); [lia|lia|].
+      rewrite Hk. apply Z.leb_le.
+      set (x := (t - now) * rate / 1000000000) in *.
+      assert (Hb : 0 <= x / 1125899906842624 < 4096).
+      { assert (0 <= x) by (unfold x; apply Z.div_pos; [nia|lia]).
+        lia. }
+      assert (Hs : s32 ((ts + ((- x + e) mod 4294967296) mod 4294967296) mod 4294967296 - ts + x) = e).
+      { unfold s32. cbv zeta. destruct (_ <? 2147483648) eqn:?; lia. }
+      rewrite Hs. exact He. }
+    rewrite R. reflexivity.
+  Qed.
+End OracleSound2.
